@@ -52,6 +52,9 @@ def _pl(points, t):
     return points[-1][1] if t == points[-1][0] else 0.0
 
 
+LAST_DUP = {}
+
+
 def run_class(project, fi, ranks):
     k = len(ranks) // 2
     m = max(ranks) + 1
@@ -86,6 +89,8 @@ def check_sweep(project: Project, rep, max_bars=2, sample3=0):
     n_ok = 0
     dup_bad = None
     n_dup = 0
+    dup_fail, dup_unfollowed = [], []
+    dup_why = {}
     for ranks in todo:
         k = len(ranks) // 2
         bars_r = [(ranks[2 * i], ranks[2 * i + 1]) for i in range(k)]
@@ -101,9 +106,24 @@ def check_sweep(project: Project, rep, max_bars=2, sample3=0):
             if has_dup:
                 n_dup += 1
                 dup_bad = dup_bad or (bars_r, "does not terminate / cannot be followed")
+                dup_unfollowed.append(tuple(ranks))
                 continue
             rep.unmodelled("LX-SWEEP", fi, fi.node, f"bars {bars_r}: {msg}"[:200])
             return "unmodelled"
+        # an exception that is certain on this run (a pop at a position a fully known list does not have)
+        boom = [ev_ for ev_ in I.log if ev_["kind"] == "raise" and ev_.get("exc") and ev_.get("definite")]
+        if boom and not I.lossy and not [u for u in I.unmodelled if not str(u["tag"]).startswith(("prim:builtins.print", "index-StrV"))]:
+            if has_dup:
+                n_dup += 1
+                dup_bad = dup_bad or (bars_r, f"raises {boom[0]['exc']} ({boom[0].get('message', '')})")
+                dup_fail.append(tuple(ranks))
+                dup_why[tuple(ranks)] = f"the sweep raises {boom[0]['exc']} ({boom[0].get('message', '')})"
+                continue
+            owner = boom[0]["fi"] or fi
+            rep.refuted("LX-SWEEP", owner, boom[0]["node"],
+                        f"bars with end-points ordered as {bars_r}: the sweep raises {boom[0]['exc']} ({boom[0].get('message', '')})",
+                        construct=f"{fi.qualname}: sweep", failing_input=str(bars_r))
+            return "refuted"
         # a test that sees None when nothing is left and a birth / death otherwise takes a coordinate 0 for 'nothing left'
         for rec in getattr(I, "truth_kinds", {}).values():
             if {"none", "data-number"} <= rec["kinds"]:
@@ -145,6 +165,7 @@ def check_sweep(project: Project, rep, max_bars=2, sample3=0):
             if has_dup:
                 n_dup += 1
                 dup_bad = dup_bad or (bars_r, f"cannot be followed ({why})")
+                dup_unfollowed.append(tuple(ranks))
                 continue
             rep.unmodelled("LX-SWEEP", fi, fi.node, f"bars {bars_r}: the sweep could not be followed ({str(why)[:100]})")
             return "unmodelled"
@@ -186,6 +207,8 @@ def check_sweep(project: Project, rep, max_bars=2, sample3=0):
             if has_dup:
                 n_dup += 1
                 dup_bad = dup_bad or (bars_r, f"depth {bad[1] + 1} is wrong")
+                dup_fail.append(tuple(ranks))
+                dup_why[tuple(ranks)] = f"depth {bad[1] + 1} is not the {bad[1] + 1}-th largest tent"
                 continue
             bars, depth, t, want, have = bad
             rep.refuted("LX-SWEEP", fi, fi.node,
@@ -195,6 +218,29 @@ def check_sweep(project: Project, rep, max_bars=2, sample3=0):
                         construct=f"{fi.qualname}: sweep", failing_input=str([(round(b, 3), round(d, 3)) for b, d in bars]))
             return "refuted"
         n_ok += 1
+    LAST_DUP["fail"], LAST_DUP["unfollowed"] = dup_fail, dup_unfollowed
+    # the known finding K1c is the list of classes that fail on the pinned tree (findings/k1c_classes.json): a class with a
+    # repeated bar that fails and is not on it is a different violation (e.g. three copies of one bar, which the pinned code
+    # handles) and is reported as such
+    import json as _json
+    import os as _os
+    try:
+        with open(_os.path.join(_os.path.dirname(_os.path.dirname(_os.path.abspath(__file__))), "findings", "k1c_classes.json")) as fh:
+            known_cls = {tuple(x) for x in _json.load(fh)["classes"]}
+    except (OSError, ValueError, KeyError):
+        known_cls = set()
+    fresh_fail = [c for c in dup_fail if c not in known_cls]
+    if fresh_fail:
+        c0 = fresh_fail[0]
+        k0 = len(c0) // 2
+        rep.refuted("LX-SWEEP", fi, fi.node,
+                    f"a diagram with a repeated bar whose end-points are ordered as {[(c0[2 * i], c0[2 * i + 1]) for i in range(k0)]}: "
+                    f"{dup_why.get(c0, 'some depth is not the k-th largest tent')}, and this class is not among those of the known repeated-bar finding "
+                    f"(the pinned code handles it): {len(fresh_fail)} such class(es)",
+                    construct=f"{fi.qualname}: sweep of a diagram with a repeated bar, class outside the known finding",
+                    failing_input=f"end-point ranks {[(c0[2 * i], c0[2 * i + 1]) for i in range(k0)]}")
+        if not [c for c in dup_fail if c in known_cls] and not dup_unfollowed:
+            dup_bad = None
     if dup_bad is not None:
         rep.refuted("LX-SWEEP", fi, fi.node,
                     f"ordering classes in which the repeated-bar shortcut runs (a bar occurring twice, or a residual bar coinciding "
